@@ -1,5 +1,7 @@
 import Pyunicorn.Lemmas.Mpi
 import Pyunicorn.Lemmas.MpiProto
+import Pyunicorn.Lemmas.MpiChunk
+import Pyunicorn.Model.MpiKernels
 import Pyunicorn.Generated.ArithC19
 import Pyunicorn.Generated.StructC19
 /-!
@@ -687,3 +689,348 @@ example :
 
 end Pyunicorn.MpiProto
 
+
+/-! ## Round 4 — the per-chunk argument tuples and the chunk kernels' subscripts
+
+`translate/gen_C19.py` regenerates, for each of the three master loops, (a) every element
+of the argument tuple of `mpi.submit_call` and of the serial call, resolved to the array it
+is cut from (`X[start_i:end_i]` = sliced, `X` = whole, `None`), and (b) for the chunk
+kernel every first-axis subscript of every parameter, its loop header, result
+initialisation / update / return statements and its loop-carried locals.  The theorems
+below are about these generated tables and about the generic chunk-call model
+`Pyunicorn.MpiChunk` (arbitrary iteration body). -/
+namespace Pyunicorn.MpiChunk
+open Pyunicorn.Generated Pyunicorn.Mpi Pyunicorn.MpiProto
+
+variable {ρ β : Type}
+
+/-- **every array a chunk kernel indexes by `i - start_i` is handed over sliced** (and
+nothing else is): for the three master loops of the current source, a kernel parameter
+subscripted chunk-relatively is subscripted only so, the distributed branch passes exactly
+these parameters as `X[start_i:end_i]`, the serial branch passes the same arrays whole with
+`start_i = 0`, `end_i = N` under the same conditions, and a possibly-`None` argument is read
+only under the complementary condition.  (Seeds C19-1, -3, -5, -6 each falsify this.) -/
+theorem chunk_tables_ok :
+    tablesOk StructC19.arenas_kernel_params StructC19.arenas_kernel_subs
+      StructC19.arenas_kernel_guards "i - start_i" StructC19.arenas_dist_args
+      StructC19.arenas_serial_args = true ∧
+    tablesOk StructC19.newman_kernel_params StructC19.newman_kernel_subs
+      StructC19.newman_kernel_guards "i_rel" StructC19.newman_dist_args
+      StructC19.newman_serial_args = true ∧
+    tablesOk StructC19.nsinewman_kernel_params StructC19.nsinewman_kernel_subs
+      StructC19.nsinewman_kernel_guards "i_rel" StructC19.nsinewman_dist_args
+      StructC19.nsinewman_serial_args = true := by
+  refine ⟨by decide, by decide, by decide⟩
+
+/-- **shape of the chunk kernels in the current source**: one outer loop over the nodes of
+the chunk (`for i in range(start_i, end_i)` resp. `this_N = end_i - start_i; for i_rel in
+range(this_N); i_abs = i_rel + start_i`), the result starts from zeros, is only added to
+(at `[i_rel]` for the two slice kernels), is returned together with `start_i, end_i`, and no
+other local variable carries a value from one iteration to the next — the shape
+`chunkKernelAbs` / `chunkKernelRel` / `addKernel` transcribe; the master calls the kernel
+the serial branch calls. -/
+theorem kernel_shapes :
+    StructC19.arenas_kernel_loop = ["for i in range(start_i, end_i)"] ∧
+    StructC19.arenas_kernel_init = ["component_betweenness = np.zeros(N)"] ∧
+    StructC19.arenas_kernel_out = ["component_betweenness +="] ∧
+    StructC19.arenas_kernel_return = "result = (component_betweenness, start_i, end_i)" ∧
+    StructC19.arenas_kernel_carried = [] ∧
+    StructC19.newman_kernel_loop =
+      ["this_N = end_i - start_i", "for i_rel in range(this_N)", "i_abs = i_rel + start_i"] ∧
+    StructC19.newman_kernel_init = ["this_betweenness = np.zeros(this_N, dtype=DFIELD)"] ∧
+    StructC19.newman_kernel_out = ["this_betweenness[i_rel] +="] ∧
+    StructC19.newman_kernel_return = "return (this_betweenness, start_i, end_i)" ∧
+    StructC19.newman_kernel_carried = [] ∧
+    StructC19.nsinewman_kernel_loop = StructC19.newman_kernel_loop ∧
+    StructC19.nsinewman_kernel_init = StructC19.newman_kernel_init ∧
+    StructC19.nsinewman_kernel_out = StructC19.newman_kernel_out ∧
+    StructC19.nsinewman_kernel_return = StructC19.newman_kernel_return ∧
+    StructC19.nsinewman_kernel_carried = [] ∧
+    StructC19.arenas_dist_callee = StructC19.arenas_serial_callee ∧
+    StructC19.newman_dist_callee = "core._ext.numerics." ++ StructC19.newman_serial_callee ∧
+    StructC19.nsinewman_dist_callee = "core._ext.numerics." ++ StructC19.nsinewman_serial_callee ∧
+    StructC19.arenas_serial_conditions = ["not (len(comp) == 1)", "not (mpi.available)"] ∧
+    StructC19.newman_serial_conditions = ["not (len(comp) < 2)", "not (mpi.available)"] ∧
+    StructC19.nsinewman_serial_conditions = ["not (len(comp) < 2)", "not (mpi.available)"] := by
+  decide
+
+private theorem idxOf_ge (params : List String) (subs : List (String × List String))
+    (rel : String) (p : Nat) (h : params.length ≤ p) : idxOf params subs rel p = .whole := by
+  simp [idxOf, List.getElem?_eq_none h]
+
+private theorem passOf_ge (args : List (List (String × String × String))) (p : Nat)
+    (h : args.length ≤ p) : passOf args p = .whole := by
+  simp [passOf, List.getElem?_eq_none h]
+
+/-- **n.s.i. Arenas loop: chunk-relative ⇔ sliced**, for every argument position -/
+theorem arenas_rel_iff_sliced : ∀ p, arenasIdx p = .rel ↔ arenasPass p = .sliced := by
+  have hb : ∀ p, p < 10 → (arenasIdx p = .rel ↔ arenasPass p = .sliced) := by decide
+  intro p
+  by_cases h : p < 10
+  · exact hb p h
+  · have h1 : arenasIdx p = .whole := idxOf_ge _ _ _ p (by
+      have : StructC19.arenas_kernel_params.length = 10 := by decide
+      omega)
+    have h2 : arenasPass p = .whole := passOf_ge _ p (by
+      have : StructC19.arenas_dist_args.length = 10 := by decide
+      omega)
+    simp [h1, h2]
+
+/-- **Newman loop: chunk-relative ⇔ sliced** -/
+theorem newman_rel_iff_sliced : ∀ p, newmanIdx p = .rel ↔ newmanPass p = .sliced := by
+  have hb : ∀ p, p < 5 → (newmanIdx p = .rel ↔ newmanPass p = .sliced) := by decide
+  intro p
+  by_cases h : p < 5
+  · exact hb p h
+  · have h1 : newmanIdx p = .whole := idxOf_ge _ _ _ p (by
+      have : StructC19.newman_kernel_params.length = 5 := by decide
+      omega)
+    have h2 : newmanPass p = .whole := passOf_ge _ p (by
+      have : StructC19.newman_dist_args.length = 5 := by decide
+      omega)
+    simp [h1, h2]
+
+/-- **n.s.i. Newman loop: chunk-relative ⇔ sliced** -/
+theorem nsinewman_rel_iff_sliced : ∀ p, nsinewmanIdx p = .rel ↔ nsinewmanPass p = .sliced := by
+  have hb : ∀ p, p < 7 → (nsinewmanIdx p = .rel ↔ nsinewmanPass p = .sliced) := by decide
+  intro p
+  by_cases h : p < 7
+  · exact hb p h
+  · have h1 : nsinewmanIdx p = .whole := idxOf_ge _ _ _ p (by
+      have : StructC19.nsinewman_kernel_params.length = 7 := by decide
+      omega)
+    have h2 : nsinewmanPass p = .whole := passOf_ge _ p (by
+      have : StructC19.nsinewman_dist_args.length = 7 := by decide
+      omega)
+    simp [h1, h2]
+
+/-- non-vacuity: the tables do contain chunk-relative parameters (`this_Aplus`, `this_w`,
+`this_twinness`; `this_A`; `this_A`, `this_not_adj_or_equal`) -/
+example : arenasIdx 2 = .rel ∧ arenasIdx 4 = .rel ∧ arenasIdx 9 = .rel ∧ arenasIdx 3 = .whole ∧
+    newmanIdx 0 = .rel ∧ newmanIdx 1 = .whole ∧ nsinewmanIdx 0 = .rel ∧ nsinewmanIdx 4 = .rel ∧
+    nsinewmanIdx 3 = .whole := by decide
+
+/-- **row-locality of a correctly called chunk** (any iteration body, any arrays, any
+chunk): the call the master submits for `[start_i, end_i)` returns the rows
+`start_i … end_i - 1` of what the serial call `kernel(…, 0, N)` returns. -/
+theorem chunk_call_rows [Inhabited ρ] (idx : Nat → Idx) (pass : Nat → Pass)
+    (hOK : ∀ p, idx p = .rel ↔ pass p = .sliced)
+    (body : (Nat → ρ) → (Nat → Arr ρ) → Nat → β) (full : Nat → Arr ρ) (c : Nat × Nat) :
+    chunkKernelRel idx body (distArgs pass full c.1) c.1 c.2 =
+      chunkResult (serialRow idx body full) c ∧
+    chunkKernelAbs idx body (distArgs pass full c.1) c.1 c.2 =
+      chunkResult (serialRow idx body full) c := by
+  rw [chunkKernelRel_eq_abs]
+  exact ⟨chunk_call_eq_chunkResult idx pass hOK body full c,
+    chunk_call_eq_chunkResult idx pass hOK body full c⟩
+
+/-- **sharpness** (seeds C19-3 / C19-6 in the model): a chunk-relative parameter handed
+over whole makes a chunk with `start_i > 0` read the rows of the *first* nodes. -/
+theorem unsliced_chunk_reads_wrong_rows :
+    chunkKernelAbs (ρ := Nat) (fun _ => .rel) (fun r _ _ => r 0)
+        (distArgs (fun _ => .whole) (fun _ k => 10 * k) 2) 2 4 = [0, 10] ∧
+    chunkResult (serialRow (ρ := Nat) (fun _ => .rel) (fun r _ _ => r 0) (fun _ k => 10 * k))
+        (2, 4) = [20, 30] := by
+  decide
+
+/-- **slice-assembling master loop = serial call** (generic): for every iteration body,
+every family of arrays, every number of ranks `size ≥ 2`, every schedule and time
+estimate — if every chunk-relative parameter is handed over sliced (and only those) and
+the chunk arithmetic satisfies `1 ≤ step`, `(parts-1)·step < N ≤ parts·step`, then the run
+never raises and, once `run()` has returned, writing the retrieved
+`(this_betweenness, start_i, end_i)` into `component_betweenness[start_i:end_i]` gives
+exactly what the serial branch's single call `kernel(whole arrays, 0, N)` returns. -/
+theorem slice_loop_eq_serial [Inhabited ρ] [DecidableEq β] (idx : Nat → Idx) (pass : Nat → Pass)
+    (hOK : ∀ p, idx p = .rel ↔ pass p = .sliced)
+    (body : (Nat → ρ) → (Nat → Arr ρ) → Nat → β) (full : Nat → Arr ρ) (zero : β)
+    (N step parts size : Nat) (hsize : 2 ≤ size) (hstep : 1 ≤ step)
+    (hlo : (parts - 1) * step < N) (hhi : N ≤ parts * step) (est : Nat → Int) (cs : List Nat) :
+    let payload : Nat → Nat × Nat := fun i => (i * step, min ((i + 1) * step) N)
+    let f : Nat × Nat → Nat × List β := fun c =>
+      (c.1, chunkKernelRel idx body (distArgs pass full c.1) c.1 c.2)
+    let st := run f (init (β := Nat × List β) size (masterProg parts payload est)) cs
+    st.err = none ∧
+    (st.finished = true →
+      assembleR zero N (st.got.map (·.2)) = chunkKernelRel idx body full 0 N) := by
+  intro payload f st
+  obtain ⟨herr, hgot⟩ := master_loop_correct f size hsize parts payload est cs
+  refine ⟨herr, fun hfin => ?_⟩
+  have hg : st.got = (List.range parts).map (fun i => (i, f (payload i))) := hgot hfin
+  rw [hg, List.map_map]
+  have hlist : (List.range parts).map ((fun x : Nat × (Nat × List β) => x.2) ∘
+      fun i => (i, f (payload i))) =
+      (chunks N step parts).map (fun c => (c.1, chunkResult (serialRow idx body full) c)) := by
+    unfold chunks
+    rw [List.map_map]
+    apply List.map_congr_left
+    intro i _
+    simp only [Function.comp_def, f, payload]
+    have := (chunk_call_rows idx pass hOK body full (i * step, min ((i + 1) * step) N)).1
+    simp only at this
+    rw [this]
+  rw [hlist, assembleR_map, master_chunks_assemble zero N step parts _ hstep hlo hhi,
+    chunkKernelRel_eq_abs, serial_call_eq]
+
+/-- **additive master loop = serial call** (generic, the n.s.i. Arenas shape): same
+hypotheses; adding the retrieved length-`N` partial results gives the vector the serial
+branch's single call computes (exact arithmetic). -/
+theorem add_loop_eq_serial [Inhabited ρ] (idx : Nat → Idx) (pass : Nat → Pass)
+    (hOK : ∀ p, idx p = .rel ↔ pass p = .sliced)
+    (body : (Nat → ρ) → (Nat → Arr ρ) → Nat → Nat → Int) (full : Nat → Arr ρ)
+    (N step parts size : Nat) (hsize : 2 ≤ size) (hhi : N ≤ parts * step)
+    (est : Nat → Int) (cs : List Nat) :
+    let payload : Nat → Nat × Nat := fun i => (i * step, min ((i + 1) * step) N)
+    let f : Nat × Nat → List Int := fun c =>
+      addKernel idx body N (distArgs pass full c.1) c.1 c.2
+    let st := run f (init (β := List Int) size (masterProg parts payload est)) cs
+    st.err = none ∧
+    (st.finished = true → assembleAdd N (st.got.map (·.2)) = addKernel idx body N full 0 N) := by
+  intro payload f st
+  obtain ⟨herr, hgot⟩ := master_loop_correct f size hsize parts payload est cs
+  refine ⟨herr, fun hfin => ?_⟩
+  have hg : st.got = (List.range parts).map (fun i => (i, f (payload i))) := hgot hfin
+  rw [hg, List.map_map]
+  have hlist : (List.range parts).map ((fun x : Nat × List Int => x.2) ∘
+      fun i => (i, f (payload i))) =
+      (chunks N step parts).map
+        (fun c => partialResult N (fun i j => serialRow idx body full i j) c) := by
+    unfold chunks
+    rw [List.map_map]
+    apply List.map_congr_left
+    intro i _
+    simp only [Function.comp_def, f, payload]
+    exact addKernel_dist_eq_partial idx pass hOK body full N (i * step, min ((i + 1) * step) N)
+  rw [hlist, assembleAdd_map, addKernel_serial]
+  apply List.ext_getElem?
+  intro j
+  have hlen : ((chunks N step parts).foldl (fun a c => addVec a
+      (partialResult N (fun i j => serialRow idx body full i j) c)) (List.replicate N 0)).length
+      = N :=
+    foldl_addVec_length N _ _ (fun c => by simp [partialResult]) _ (by simp)
+  by_cases hj : j < N
+  · have := assembleSum_chunks N step parts (fun i j => serialRow idx body full i j) hhi j hj
+    unfold assembleSum at this
+    rw [this]
+    simp [hj]
+  · rw [List.getElem?_eq_none (by omega), List.getElem?_eq_none (by simp; omega)]
+
+/-- the payloads computed by the generated `start_i` / `end_i` expressions, in ℕ -/
+private theorem payload_nat (stepZ : Int) (N : Nat) (hs : 0 ≤ stepZ) (i : Nat) :
+    (((i : Int) * stepZ).toNat, (min (((i : Int) + 1) * stepZ) (N : Int)).toNat) =
+      (i * stepZ.toNat, min ((i + 1) * stepZ.toNat) N) := by
+  have h : (stepZ.toNat : Int) = stepZ := Int.toNat_of_nonneg hs
+  have h1 : ((i : Int) * stepZ) = ((i * stepZ.toNat : Nat) : Int) := by
+    rw [Int.natCast_mul, h]
+  have h2 : (((i : Int) + 1) * stepZ) = (((i + 1) * stepZ.toNat : Nat) : Int) := by
+    rw [Int.natCast_mul, h]; simp
+  rw [h1, h2]
+  generalize i * stepZ.toNat = a
+  generalize (i + 1) * stepZ.toNat = b
+  ext <;> simp <;> omega
+
+/-- **Newman's random-walk betweenness: distributed = serial**, end to end for the current
+source — chunk boundaries by the regenerated expressions (`max_parts`, `step`, `parts`,
+`start_i`, `end_i` of `Network.newman_betweenness`), arguments handed over as the
+regenerated tuple prescribes, the real protocol of `utils/mpi.py` under every schedule
+with every number of slaves, slice assembly: the result is the serial branch's
+`_mpi_newman_betweenness(A, V, N, 0, N)`, for every component size `N ≥ 1` and every
+iteration body. -/
+theorem newman_distributed_eq_serial [Inhabited ρ] [DecidableEq β]
+    (body : (Nat → ρ) → (Nat → Arr ρ) → Nat → β) (full : Nat → Arr ρ) (zero : β)
+    (N size : Nat) (hsize : 2 ≤ size) (hN : 1 ≤ N) (est : Nat → Int) (cs : List Nat) :
+    let stepZ := ArithC19.newman_step N (ArithC19.newman_max_parts size N)
+    let partsZ := ArithC19.newman_parts N stepZ
+    let payload : Nat → Nat × Nat := fun i =>
+      ((ArithC19.newman_start i stepZ).toNat, (ArithC19.newman_end i stepZ N).toNat)
+    let f : Nat × Nat → Nat × List β := fun c =>
+      (c.1, chunkKernelRel newmanIdx body (distArgs newmanPass full c.1) c.1 c.2)
+    let st := run f (init (β := Nat × List β) size (masterProg partsZ.toNat payload est)) cs
+    st.err = none ∧
+    (st.finished = true →
+      assembleR zero N (st.got.map (·.2)) = chunkKernelRel newmanIdx body full 0 N) := by
+  intro stepZ partsZ payload
+  have hmp := (max_parts_pos size N).1
+  obtain ⟨h1, h2, h3, _⟩ := chunk_facts_nat N (ArithC19.newman_max_parts size N) stepZ partsZ
+    (by omega) hmp rfl rfl
+  have hpay : payload = fun i => (i * stepZ.toNat, min ((i + 1) * stepZ.toNat) N) := by
+    funext i
+    exact payload_nat stepZ N (by omega) i
+  rw [hpay]
+  have := slice_loop_eq_serial newmanIdx newmanPass newman_rel_iff_sliced body full zero N
+    stepZ.toNat partsZ.toNat size hsize h1 (by simpa using h2) (by simpa using h3) est cs
+  exact this
+
+/-- **n.s.i. Newman betweenness: distributed = serial**, end to end (as above, with the
+expressions and tuples of `Network.nsi_newman_betweenness` / `_mpi_nsi_newman_betweenness`). -/
+theorem nsinewman_distributed_eq_serial [Inhabited ρ] [DecidableEq β]
+    (body : (Nat → ρ) → (Nat → Arr ρ) → Nat → β) (full : Nat → Arr ρ) (zero : β)
+    (N size : Nat) (hsize : 2 ≤ size) (hN : 1 ≤ N) (est : Nat → Int) (cs : List Nat) :
+    let stepZ := ArithC19.nsinewman_step N (ArithC19.nsinewman_max_parts size N)
+    let partsZ := ArithC19.nsinewman_parts N stepZ
+    let payload : Nat → Nat × Nat := fun i =>
+      ((ArithC19.nsinewman_start i stepZ).toNat, (ArithC19.nsinewman_end i stepZ N).toNat)
+    let f : Nat × Nat → Nat × List β := fun c =>
+      (c.1, chunkKernelRel nsinewmanIdx body (distArgs nsinewmanPass full c.1) c.1 c.2)
+    let st := run f (init (β := Nat × List β) size (masterProg partsZ.toNat payload est)) cs
+    st.err = none ∧
+    (st.finished = true →
+      assembleR zero N (st.got.map (·.2)) = chunkKernelRel nsinewmanIdx body full 0 N) := by
+  intro stepZ partsZ payload
+  have hmp := (max_parts_pos size N).2.1
+  obtain ⟨h1, h2, h3, _⟩ := chunk_facts_nat N (ArithC19.nsinewman_max_parts size N) stepZ partsZ
+    (by omega) hmp rfl rfl
+  have hpay : payload = fun i => (i * stepZ.toNat, min ((i + 1) * stepZ.toNat) N) := by
+    funext i
+    exact payload_nat stepZ N (by omega) i
+  rw [hpay]
+  have := slice_loop_eq_serial nsinewmanIdx nsinewmanPass nsinewman_rel_iff_sliced body full zero N
+    stepZ.toNat partsZ.toNat size hsize h1 (by simpa using h2) (by simpa using h3) est cs
+  exact this
+
+/-- **n.s.i. Arenas betweenness: distributed = serial**, end to end (additive assembly,
+exact arithmetic; both stopping modes and both values of `exclude_neighbors` are instances
+of the arbitrary iteration body). -/
+theorem arenas_distributed_eq_serial [Inhabited ρ]
+    (body : (Nat → ρ) → (Nat → Arr ρ) → Nat → Nat → Int) (full : Nat → Arr ρ)
+    (N size : Nat) (hsize : 2 ≤ size) (hN : 1 ≤ N) (est : Nat → Int) (cs : List Nat) :
+    let stepZ := ArithC19.arenas_step N (ArithC19.arenas_max_parts size N)
+    let partsZ := ArithC19.arenas_parts N stepZ
+    let payload : Nat → Nat × Nat := fun i =>
+      ((ArithC19.arenas_start i stepZ).toNat, (ArithC19.arenas_end i stepZ N).toNat)
+    let f : Nat × Nat → List Int := fun c =>
+      addKernel arenasIdx body N (distArgs arenasPass full c.1) c.1 c.2
+    let st := run f (init (β := List Int) size (masterProg partsZ.toNat payload est)) cs
+    st.err = none ∧
+    (st.finished = true →
+      assembleAdd N (st.got.map (·.2)) = addKernel arenasIdx body N full 0 N) := by
+  intro stepZ partsZ payload
+  have hmp := (max_parts_pos size N).2.2
+  obtain ⟨h1, h2, h3, _⟩ := chunk_facts_nat N (ArithC19.arenas_max_parts size N) stepZ partsZ
+    (by omega) hmp rfl rfl
+  have hpay : payload = fun i => (i * stepZ.toNat, min ((i + 1) * stepZ.toNat) N) := by
+    funext i
+    exact payload_nat stepZ N (by omega) i
+  rw [hpay]
+  have := add_loop_eq_serial arenasIdx arenasPass arenas_rel_iff_sliced body full N
+    stepZ.toNat partsZ.toNat size hsize (by simpa using h3) est cs
+  exact this
+
+/-- non-vacuity of the end-to-end statements: `N = 7` nodes cut into `[0,3) [3,6) [6,7)` on
+3 ranks, parameter 0 chunk-relative and sliced, parameter 1 whole; a completed error-free
+run of the protocol model under an interleaved schedule assembles the serial vector -/
+example :
+    let idx : Nat → Idx := fun p => if p = 0 then .rel else .whole
+    let pass : Nat → Pass := fun p => if p = 0 then .sliced else .whole
+    let body : (Nat → Nat) → (Nat → Arr Nat) → Nat → Nat := fun r w i => 100 * r 0 + w 1 i
+    let full : Nat → Arr Nat := fun p k => if p = 0 then k * k else k + 1
+    let f : Nat × Nat → Nat × List Nat := fun c =>
+      (c.1, chunkKernelRel idx body (distArgs pass full c.1) c.1 c.2)
+    let st := run f (init (β := Nat × List Nat) 3
+      (masterProg 3 (fun i => (i * 3, min ((i + 1) * 3) 7)) (fun _ => 1)))
+      [0, 0, 0, 1, 2, 1, 0, 0, 0, 0, 1, 2]
+    st.err = none ∧ st.finished = true ∧
+    assembleR 0 7 (st.got.map (·.2)) = chunkKernelRel idx body full 0 7 ∧
+    chunkKernelRel idx body full 0 7 = [1, 102, 403, 904, 1605, 2506, 3607] := by
+  decide
+
+end Pyunicorn.MpiChunk
